@@ -32,7 +32,7 @@ def pairs(tier):
     ]
     if tier != "quick":
         out += [(3, (1, 0, 0), 3, (0, 1, 0)), (2, (1, 1, 0), 2, (0, 1, 1)), (3, (0, 2, 0), 2, (0, 1, 0)), (1, (1, 1, 1), 1, (0, 1, 0)),
-                (2, (3, 0, 0), 2, (1, 0, 0)), (1, (2, 0, 0), 3, (0, 0, 0))]
+                (2, (3, 0, 0), 2, (1, 0, 0))]
     return out
 
 
